@@ -222,6 +222,7 @@ let parse_set_tokens (toks : string list) : cset =
              let s = (match next () with "~" -> None | c -> Some (n_of_int (int_of_string c))) in
              if k = "O" then KOpt (l, s) else KFlag (l, s) in
     let ty = match next () with "S" -> TStr | "U" -> TU8 | "B" -> TBool | "C" -> TChar
+      | "Zu" -> TSize false | "Zs" -> TSize true
       | t when String.length t > 2 && t.[0] = 'I' -> TInt (t.[1] = 's', n_of_int (int_of_string (String.sub t 2 (String.length t - 2))))
       | _ -> failwith "ty" in
     let optional = next () = "1" in
